@@ -10,6 +10,10 @@ NOTE = ('trusted: rustc MIR dump of the scratch copy; MIR semantics and library 
 CLAIMED = {
     'C01': dict(text='All four layers from the MIR built with and without overflow checks: every Node variant of all five evaluators on arbitrary operands, every string of 0..2 (thorough 3) characters through the tokenizers and through the public functions, digit / superscript runs at the conversion limits, every token stream of 0..2 (thorough 3) tokens, and `name(@,..)` for every function name and operator with an arbitrary placeholder: no explored path ends in a panic. eval_decimal arithmetic is abstract (failure modes of rust_decimal operations as uninterpreted predicates, witnesses from a boundary pool).',
                 ref='DESIGN.md section 6 C01'),
+    'C02': dict(text='Symbolic execution with a step counter (crate calls + loop back edges + library iterator elements) as unwinding assertion, budget 4096 + 256*len: every looping construct (x!, ilog, w, gcd, lcm, integer ^, exp2, aggregates) on arbitrary operands and the public functions on looping templates, short arbitrary strings, nested brackets and long literals. Paths are enumerated syntactically (over-approximation), an over-budget path must be infeasible (z3, with a sound range axiom for log10) or it is confirmed by a native run under a 5 s watchdog.',
+                ref='DESIGN.md section 6 C02'),
+    'C16': dict(text='Every MIR body reachable from the five public functions (call graph from the MIR, closures included) and every library callee named there is scanned for places that outlive a call (statics, thread locals, interior-mutable or synchronisation types, effectful library calls); none exists, so the symbolic result of a call is a function of its two arguments. If one is found, call histories are replayed natively against fresh processes.',
+                ref='DESIGN.md section 6 C16'),
     'C03': dict(text='The five real parsers (all of parser.rs from MIR) executed over every stream of exactly K symbolic tokens, K = 0..3 (thorough 4), over the complete token vocabulary: the set of accepted token sequences equals the set the reference grammar accepts (both directions) and the trees agree; plus the tokenizers on every string of 0..2 characters.',
                 ref='DESIGN.md section 6 C03'),
     'C04': dict(text='The real parsers over template token streams X op Y op Z (every binary/postfix operator, optional prefix signs and `!`, every bracket kind around every sub-sequence): every accepted sequence yields exactly the tree of the reference operator-precedence grammar (precedence, left associativity, bracket overriding).',
